@@ -5,6 +5,8 @@ import (
 	"errors"
 	"io"
 	"net"
+	"os"
+	"syscall"
 	"time"
 
 	"github.com/IrineSistiana/mosproxy/internal/dnsmsg"
@@ -117,12 +119,24 @@ type vNetConn struct {
 	// I/O deadline: when deadlines is set, every SetDeadline arms a timer that may fire at any later
 	// scheduling point; a blocked or later Read then fails with a timeout error (net.Error, Timeout() == true)
 	deadlines bool
-	dl        chan struct{}
+	dl        chan struct{} // closed when the current deadline has struck
+	dlFired   bool
+	dlGen     int
 	// the peer reset the connection while it was idle: the next Write fails (EPIPE) although the blocked Read has
 	// not been woken yet; the Write after that finds the reset delivered to the reader as well
 	rst       bool
 	rstWrites int
 	rstCh     chan struct{} // closed when the reset is delivered to the reader
+	// the peer closed its side (FIN) while our side is still open: reads hit end-of-stream once the data is drained
+	fin chan struct{}
+	fd  int
+	// failMarker: the Write of the query carrying this marker octet fails without harming the connection
+	failMarker byte
+	failOff    int // offset of the marker octet in what is written (3 for datagrams, 5 behind a length prefix)
+	// pastDeadlines: a deadline that is not in the future when it is set (SetReadDeadline(time.Now()), the idiom for
+	// waking a blocked reader) strikes at once — deterministically, unlike the future deadlines armed by `deadlines`.
+	// Only meaningful under a harness-controlled (concrete) clock.
+	pastDeadlines bool
 	// Close takes time (e.g. a TLS close_notify to a stalled peer): other goroutines run while it is in progress
 	slowClose bool
 }
@@ -130,11 +144,14 @@ type vNetConn struct {
 type vTimeoutErr struct{}
 
 func (vTimeoutErr) Error() string   { return "i/o timeout" }
+
+// like the *net.OpError a real socket returns when its deadline strikes: errors.Is(err, os.ErrDeadlineExceeded) holds
+func (vTimeoutErr) Unwrap() error { return os.ErrDeadlineExceeded }
 func (vTimeoutErr) Timeout() bool   { return true }
 func (vTimeoutErr) Temporary() bool { return true }
 
 func newVNetConn() *vNetConn {
-	return &vNetConn{inbox: make(chan []byte, 8), outbox: make(chan []byte, 8), closedCh: make(chan struct{}), rstCh: make(chan struct{})}
+	return &vNetConn{inbox: make(chan []byte, 8), outbox: make(chan []byte, 8), closedCh: make(chan struct{}), rstCh: make(chan struct{}), dl: make(chan struct{}), fin: make(chan struct{})}
 }
 
 func (c *vNetConn) Read(p []byte) (int, error) {
@@ -146,7 +163,9 @@ func (c *vNetConn) Read(p []byte) (int, error) {
 			return 0, errVConn
 		case <-c.rstCh:
 			return 0, errVConn
-		case <-c.dl: // nil channel (never ready) unless a deadline is armed
+		case <-c.fin:
+			return 0, io.EOF
+		case <-c.dl: // closed when the deadline in force strikes (also while this Read is already blocked)
 			return 0, vTimeoutErr{}
 		}
 	}
@@ -171,6 +190,9 @@ func (c *vNetConn) Write(p []byte) (int, error) {
 		return 0, errVConn
 	}
 	verifrt.Yield() // a Write in progress: other goroutines may run before the bytes are actually taken
+	if c.failMarker != 0 && len(p) > c.failOff && p[c.failOff] == c.failMarker {
+		return 0, errVConn // a transient send failure (ENOBUFS, EMSGSIZE, …): nothing left the host, the socket stays usable
+	}
 	// one-at-a-time discipline (C06): every earlier query's 14-octet reply has been consumed completely
 	if c.checkClean && c.consumed != 14*c.nWrites {
 		c.violated = true
@@ -196,13 +218,98 @@ func (c *vNetConn) SetDeadline(t time.Time) error {
 	if c.closed {
 		return errVConn
 	}
-	c.dl = nil
-	if c.deadlines && !t.IsZero() {
-		d := make(chan struct{})
-		c.dl = d
-		go func() { close(d) }() // the deadline strikes whenever this goroutine is scheduled
+	// a new deadline replaces the previous one: a timer armed for the old one no longer counts, and a deadline that has
+	// struck is forgotten
+	c.dlGen++
+	if c.dlFired {
+		c.dl = make(chan struct{})
+		c.dlFired = false
+	}
+	if t.IsZero() {
+		return nil
+	}
+	if c.pastDeadlines && !t.After(time.Now()) {
+		c.dlFired = true
+		close(c.dl) // wakes a reader that is already blocked, like a real socket
+		return nil
+	}
+	if c.deadlines {
+		d, g := c.dl, c.dlGen
+		go func() { // the deadline strikes whenever this goroutine is scheduled
+			if c.dlGen == g && !c.dlFired {
+				c.dlFired = true
+				close(d)
+			}
+		}()
 	}
 	return nil
 }
 func (c *vNetConn) SetReadDeadline(t time.Time) error  { return c.SetDeadline(t) }
 func (c *vNetConn) SetWriteDeadline(t time.Time) error { return c.SetDeadline(t) }
+
+// PeerClose: the server closes its side of the connection (FIN); our side stays open until somebody closes it.
+func (c *vNetConn) PeerClose() { close(c.fin) }
+
+// ---- the descriptor side of the fake: like a *net.TCPConn it implements syscall.Conn, so code that probes the raw
+// socket (non-blocking 1-byte read to see whether the peer has gone) runs against the fake's state. syscall.Read on a
+// fake descriptor is modelled by VerifModel_syscall_Read (a package-level default model picked up by the engine).
+
+var vFDs []*vNetConn
+
+func (c *vNetConn) SyscallConn() (syscall.RawConn, error) {
+	if c.fd == 0 {
+		vFDs = append(vFDs, c)
+		c.fd = 1000 + len(vFDs)
+	}
+	return &vRawConn{c}, nil
+}
+
+type vRawConn struct{ c *vNetConn }
+
+func (r *vRawConn) Control(f func(fd uintptr)) error {
+	if r.c.closed {
+		return errVConn
+	}
+	f(uintptr(r.c.fd))
+	return nil
+}
+func (r *vRawConn) Read(f func(fd uintptr) bool) error {
+	if r.c.closed {
+		return errVConn
+	}
+	f(uintptr(r.c.fd)) // (a callback that reports "not ready" would make the real RawConn wait; the probes never do)
+	return nil
+}
+func (r *vRawConn) Write(f func(fd uintptr) bool) error { return r.Read(f) }
+
+// VerifModel_syscall_Read: non-blocking read on a fake descriptor: buffered data, else 0 / nil at end-of-stream (the peer
+// sent FIN), else EAGAIN.
+func VerifModel_syscall_Read(fd int, p []byte) (int, error) {
+	i := fd - 1001
+	if i < 0 || i >= len(vFDs) {
+		return -1, syscall.EBADF
+	}
+	c := vFDs[i]
+	if c.closed {
+		return -1, syscall.EBADF
+	}
+	if len(c.pend) == 0 {
+		select {
+		case b := <-c.inbox:
+			c.pend = b
+		default:
+		}
+	}
+	if len(c.pend) > 0 {
+		n := copy(p, c.pend)
+		c.pend = c.pend[n:]
+		c.consumed += n
+		return n, nil
+	}
+	select {
+	case <-c.fin:
+		return 0, nil
+	default:
+	}
+	return -1, syscall.EAGAIN
+}
